@@ -136,27 +136,40 @@ Proof.
     apply (contribs_global_xy_masked R n mask mask_end t c s0 rest); assumption.
 Qed.
 
-Lemma xy_mask_coefficient_at_mask_end_refuted :
-  forall D e, (3 <= D)%Z -> (1 <= e)%Z -> (e < D - 1)%Z ->
-    (* the interaction of masked atoms is still switched off at t = mask end *)
-    unmasked_on_full D e e = false
-    (* while the drive of an XY Global channel already reaches every atom *)
-    /\ forall (R : cops) n mask (c : chan R),
-        ch_global R c = true -> ch_dmm R c = false -> ch_basis R c = 2 ->
-        contribs_of_chan R n mask e e c = [(KG 2, ch_val R c)].
-Proof.
-  intros D e HD H1 H2. split.
-  - apply mask_coeff_late; assumption.
-  - intros R n mask c Hg Hd Hb. apply contribs_global_xy_unmasked; try assumption. lia.
-Qed.
-
-Lemma xy_mask_coefficient_elsewhere :
-  forall D e k, (3 <= D)%Z -> (1 <= e)%Z -> (e < D - 1)%Z ->
-    (0 <= k)%Z -> (k <= D - 1)%Z -> k <> e ->
+(** the 0/1 coefficient that switches the XY interaction of masked atoms
+    back on is exactly "t >= mask end", at every sampled time *)
+Lemma xy_mask_coefficient_exact :
+  forall D e k, (2 <= D)%Z -> (0 <= k)%Z -> (k <= D - 1)%Z ->
     unmasked_on_full D e k = negb (k <? e)%Z.
+Proof. exact mask_coeff_exact. Qed.
+
+(** drive and interaction switch together: from t = mask end on, an XY
+    Global channel reaches every atom AND every pair is coupled; before, the
+    channel reaches exactly the unmasked atoms AND only pairs of unmasked
+    atoms are coupled *)
+Lemma xy_mask_drive_and_interaction_agree :
+  forall D e t, (2 <= D)%Z -> (0 <= t)%Z -> (t <= D - 1)%Z ->
+  forall (R : cops) n mask (c : chan R),
+    ch_global R c = true -> ch_dmm R c = false -> ch_basis R c = 2 ->
+    ch_slots R c <> [] ->
+    ((e <= t)%Z ->
+       contribs_of_chan R n mask e t c = [(KG 2, ch_val R c)]
+       /\ forall p, coupled_now true true true (unmasked_on_full D e t) mask p = true)
+    /\ ((t < e)%Z ->
+       contribs_of_chan R n mask e t c
+       = map (fun q => (KL 2 q, ch_val R c))
+             (filter (fun q => negb (memb q mask)) (seq 0 n))
+       /\ forall p, coupled_now true true true (unmasked_on_full D e t) mask p
+                    = negb (memb (fst p) mask || memb (snd p) mask)).
 Proof.
-  intros D e k HD H1 H2 H3 H4 H5.
-  destruct (k <? e)%Z eqn:E; simpl.
-  - apply Z.ltb_lt in E. apply mask_coeff_before; lia.
-  - apply Z.ltb_ge in E. apply mask_coeff_after; lia.
+  intros D e t HD H0 H1 R n mask c Hg Hd Hb Hs. split.
+  - intros He. split.
+    + apply contribs_global_xy_unmasked; assumption.
+    + intros p. rewrite mask_coeff_exact by assumption.
+      destruct (t <? e)%Z eqn:E; [apply Z.ltb_lt in E; lia|]. reflexivity.
+  - intros He. split.
+    + destruct (ch_slots R c) as [|s0 rest] eqn:E; [contradiction|].
+      apply (contribs_global_xy_masked R n mask e t c s0 rest); assumption.
+    + intros p. rewrite mask_coeff_exact by assumption.
+      destruct (t <? e)%Z eqn:E; [|apply Z.ltb_ge in E; lia]. reflexivity.
 Qed.
